@@ -66,6 +66,14 @@ def tomo_case(draw, kinds=("qst", "povmt", "qpt", "qmpt"), shapes=("1q",), m_ran
     shape = draw(st.sampled_from(list(shapes)))
     d = gen.dim_of(shape)
     case = {"tomo": kind, "shape": shape, "flag": draw(st.booleans()), "raw_u": draw(gen.raw(2 * d * d))}
+    # over-complete sets: generic (mixed, non-projective, unequal-trace) testers on top of the IC family
+    if kind in ("povmt", "qpt", "qmpt") and draw(st.booleans()):
+        case["extra_states"] = [draw(gen.state_case((shape,), special=False)) for _ in range(draw(st.integers(1, 2)))]
+    if kind in ("qst", "qpt", "qmpt") and draw(st.booleans()):
+        case["extra_povms"] = [
+            {"type": "povm", "shape": shape, "m": d, "kind": "naimark", "raw": draw(gen.raw(2 * d * d * d))}
+            for _ in range(draw(st.integers(1, 2)))
+        ]
     if kind == "qst":
         case["true"] = draw(gen.state_case((shape,)))
     elif kind == "povmt":
@@ -76,6 +84,12 @@ def tomo_case(draw, kinds=("qst", "povmt", "qpt", "qmpt"), shapes=("1q",), m_ran
     else:
         case["true"] = draw(gen.mprocess_case((shape,), (2, 2) if m_range[1] < 3 else (2, 3), max_per=2))
     return case
+
+
+def n_testers(case):
+    """(number of tester states, number of tester POVMs) of a tomo case."""
+    d = gen.dim_of(case["shape"])
+    return d * d + len(case.get("extra_states", [])), 1 + d * (d - 1) + len(case.get("extra_povms", []))
 
 
 def true_type(kind):
@@ -94,8 +108,8 @@ def build_tomo(case, **kw):
     basis = gen.ref_basis(shape)
     c_sys = build.c_sys_for(shape)
     u = rm.unitary_from_raw(case["raw_u"], d)
-    st_m = tester_states(d, u)
-    pv_m = tester_povms(d, u)
+    st_m = tester_states(d, u) + [gen.state_matrix(c) for c in case.get("extra_states", [])]
+    pv_m = tester_povms(d, u) + [gen.povm_matrices(c) for c in case.get("extra_povms", [])]
     states = [build.make(c_sys, "state", np.real(rm.vec(basis, r))) for r in st_m]
     povms = [build.make(c_sys, "povm", np.concatenate([np.real(rm.vec(basis, e)) for e in p]), m=d) for p in pv_m]
     flag = case["flag"]
@@ -152,7 +166,7 @@ def empi_from_counts(counts_lists):
 
 
 @st.composite
-def data_for(draw, n_sched, n_out, kinds=("exact", "fewshot", "far")):
+def data_for(draw, n_sched, n_out, kinds=("exact", "fewshot", "far", "noisy")):
     """description of the data attached to a tomo case: exact / few-shot counts / arbitrary simplex points."""
     kind = draw(st.sampled_from(list(kinds)))
     d = {"data": kind}
@@ -164,6 +178,10 @@ def data_for(draw, n_sched, n_out, kinds=("exact", "fewshot", "far")):
         d["raw"] = draw(st.lists(gen.raw(n_out), min_size=n_sched, max_size=n_sched))
         d["zero"] = draw(st.lists(st.lists(st.booleans(), min_size=n_out, max_size=n_out), min_size=n_sched, max_size=n_sched))
         d["n"] = draw(st.integers(1, 10 ** 5))
+    elif kind == "noisy":
+        # shot-noise-sized perturbation of the exact distribution (what sampling n shots of an interior object gives)
+        d["n"] = draw(st.sampled_from([100, 1000, 10 ** 4, 10 ** 5]))
+        d["raw"] = draw(st.lists(gen.raw(n_out), min_size=n_sched, max_size=n_sched))
     else:
         d["n"] = draw(st.sampled_from([10, 1000, 10 ** 5]))
     return d
@@ -178,6 +196,10 @@ def make_empi(desc, exact):
         p = p / p.sum()
         if desc["data"] == "exact":
             out.append((desc["n"], p))
+        elif desc["data"] == "noisy":
+            r = np.asarray(desc["raw"][j][: len(p)], dtype=float)
+            qv = np.clip(p + r * np.sqrt(np.maximum(p * (1 - p), 1e-4) / desc["n"]) * 2.0, 0, None)
+            out.append((desc["n"], qv / qv.sum()))
         elif desc["data"] == "fewshot":
             cdf = np.cumsum(p)
             cnt = np.zeros(len(p))
